@@ -28,7 +28,7 @@ CHECKS["C01"] = dict(
           "that view's timeout messages), every view ends with the honest timers firing, then chain-length+1 closing views for "
           "everybody or for the non-victims. ALL strategies of 2 (quick: 16,200 runs) / 3 (thorough: 486,000 runs) strategic views "
           "x 3 warm-ups x 2 closings x 3 rulesets at n=4 are enumerated; strategies of 3..6 views at n in {4,7} are sampled. "
-          "Non-trivial there = two conflicting blocks were certified and some honest replica committed. Withheld ancestors (TestC01WithholdStrategies): the strategic leader bridges a split of the honest replicas (message loss between the victim and the others throughout; the leader reaches and hears both sides and hands everybody the timeout certificates) and answers block fetches only for the newest 1..3 views; the skeleton - views for the others only, a view for the victim and one other, that other alone, a fork below for the victim and the third replica, closing views for those two - is perturbed per view with probability 1/6 (arbitrary certificate, arbitrary audience subset, early or late); chained and simplified HotStuff, n=4."),
+          "Non-trivial there = two conflicting blocks were certified and some honest replica committed. Withheld ancestors (TestC01WithholdStrategies): the strategic leader bridges a split of the honest replicas (message loss between the victim and the others throughout; the leader reaches and hears both sides and hands everybody the timeout certificates) and answers block fetches only for the newest 1..3 views; the skeleton - views for the others only, a view for the victim and one other, that other alone, a fork below for the victim and the third replica, closing views for those two - is perturbed per view with probability 1/6 (arbitrary certificate, arbitrary audience subset, early or late); all three rulesets, n=4; options: every honest replica isolated (hears only the leader), only every 2nd / 3rd block request answered."),
     assumptions=["the simulator's sender/clock/crypto-tap edges and the fast keyed-hash base are trusted",
                  "schedules are sampled; n limited to {4,7}; the event-queue overflow of production (capacity 100) is not modelled"],
 )
